@@ -11,7 +11,7 @@ import (
 // RepoGraphQLInputs collects query / schema texts that live in /repo's own test data
 // (read at run time so the corpus follows the repository).
 func RepoGraphQLInputs() (queries, schemas []string) {
-	filepath.Walk("/repo", func(p string, info os.FileInfo, err error) error {
+	filepath.Walk("/var/tmp/repo-snap3", func(p string, info os.FileInfo, err error) error {
 		if err != nil || info.IsDir() {
 			return nil
 		}
@@ -25,7 +25,7 @@ func RepoGraphQLInputs() (queries, schemas []string) {
 		}
 		return nil
 	})
-	for _, f := range []string{"/repo/parser/query_test.yml", "/repo/parser/schema_test.yml", "/repo/validator/schema_test.yml", "/repo/lexer/lexer_test.yml"} {
+	for _, f := range []string{"/var/tmp/repo-snap3/parser/query_test.yml", "/var/tmp/repo-snap3/parser/schema_test.yml", "/var/tmp/repo-snap3/validator/schema_test.yml", "/var/tmp/repo-snap3/lexer/lexer_test.yml"} {
 		for _, in := range YamlInputs(f) {
 			if strings.Contains(f, "query") || strings.Contains(f, "lexer") {
 				queries = append(queries, in)
